@@ -10,7 +10,7 @@ from .driver import log
 from .seeds import derive, digest
 
 PROP = "C19"
-REF_KEYS = ("outcome", "fp", "text", "skel", "nterms", "keys", "kind")
+REF_KEYS = ("outcome", "fp", "text", "skel", "nterms", "keys", "kind", "anf")
 
 DEFAULT_PARAMS = {"shared": True, "dummy_base": 5000000, "dummy_count": 0, "heap_skew": 0,
                   "log_level": "ERROR", "clock_step": 0.001, "abort_mode": "state",
@@ -374,6 +374,7 @@ def finish(tier, seed, ref, jobs, results, families, t0, reported, exit_code, tr
         "oracle_comparisons": {
             "H1_value_fingerprint": counts.get("H1_value", 0),
             "H1_structure": counts.get("H1_struct", 0),
+            "H1_alpha_normal_form": counts.get("H1_anf", 0),
             "H1_literal_text": counts.get("H1_text", 0),
             "H2_wavefunction_or_norm_pairs_disjoint": counts.get("H2_pairs", 0),
             "H3_value_under_renamed_tensors": counts.get("H3", 0),
